@@ -360,3 +360,90 @@ def _bellman_proof():
 
 
 LEMMA_PROOFS["L_bellman"] = _bellman_proof
+
+
+# ----------------------------------------------------------------------------- axiom instances on LOG (DESIGN 5.3): explicit, never quantified
+def _ax(name, text):
+    def deco(f):
+        def g(eng, st, *args):
+            zargs = [to_z3(to_real(a)) for a in args]
+            st.assume(f(*zargs))
+            eng.note_assumption(f"axiom instance {name}: {text}")
+            return True
+        SPEC_FUNCS[name] = g
+        return f
+    return deco
+
+
+@_ax("AX_LOG_ge0", "x >= 1  =>  LOG(x) >= 0")
+def _ax_log_ge0(x):
+    return z3.Implies(x >= 1, _LOG(x) >= 0)
+
+
+@_ax("AX_LOG_pos", "x > 1  =>  LOG(x) > 0")
+def _ax_log_pos(x):
+    return z3.Implies(x > 1, _LOG(x) > 0)
+
+
+@_ax("AX_LOG_mono", "0 < x <= y  =>  LOG(x) <= LOG(y)")
+def _ax_log_mono(x, y):
+    return z3.Implies(z3.And(0 < x, x <= y), _LOG(x) <= _LOG(y))
+
+
+@_ax("AX_LOG_mul", "x, y > 0  =>  LOG(x*y) == LOG(x) + LOG(y)")
+def _ax_log_mul(x, y):
+    return z3.Implies(z3.And(x > 0, y > 0), _LOG(x * y) == _LOG(x) + _LOG(y))
+
+
+@_ax("AX_LOG_le", "y > 0  =>  LOG(y) <= y - 1")
+def _ax_log_le(y):
+    return z3.Implies(y > 0, _LOG(y) <= y - 1)
+
+
+@_ax("AX_SQRT", "x >= 0  =>  SQRT(x) >= 0 and SQRT(x)^2 == x")
+def _ax_sqrt(x):
+    return z3.Implies(x >= 0, z3.And(_SQRT(x) >= 0, _SQRT(x) * _SQRT(x) == x))
+
+_ICUM = z3.Function("ICUM", _I, _I, _I, _R, _I, _R)
+SPEC_FUNCS["ICUM"] = lambda eng, st, n, p, k, scale, q: _ICUM(to_z3(n), to_z3(p), to_z3(k), to_z3(to_real(scale)), to_z3(q))
+
+
+@spec("typeis")
+def _typeis(eng, st, v, name):
+    if isinstance(v, FuncRef) and v.kind == "func":
+        return v.target.node.name == name
+    return False
+
+
+@spec("L_cumsum_tel")
+def _l_cumsum_tel(eng, st, c, b, F):
+    """Telescoping lemma instance: if b[j] == F[j+1]-F[j] (0<=j<len b) and c is np.cumsum(b) then c[i] == F[i+1]-F[0].
+    The generic lemma is proved by induction in LEMMA_PROOFS['L_cumsum_tel']; premises are side obligations."""
+    from pyvc.state import forall, fresh_int
+    j, i = fresh_int("j"), fresh_int("i")
+    n = to_z3(b.shape[0])
+    prem = [
+        forall([j], z3.Implies(z3.And(0 <= j, j < n), to_z3(to_real(b.get(j))) == to_z3(to_real(F.get(j + 1))) - to_z3(to_real(F.get(j))))),
+        z3.Implies(n >= 1, to_z3(to_real(c.get(0))) == to_z3(to_real(b.get(0)))),
+        forall([j], z3.Implies(z3.And(0 <= j, j + 1 < n), to_z3(to_real(c.get(j + 1))) == to_z3(to_real(c.get(j))) + to_z3(to_real(b.get(j + 1))))),
+    ]
+    # c must be the cumsum of b: c is evaluated by the caller as np.cumsum(b) (fresh symbol with the cumsum facts in the path)
+    ci = to_z3(to_real(c.get(i)))
+    concl = forall([i], z3.Implies(z3.And(0 <= i, i < n), ci == to_z3(to_real(F.get(i + 1))) - to_z3(to_real(F.get(0)))))
+    # link c to the program's cumsum value: np.cumsum(b) evaluated twice gives two symbols with the same defining facts; equate them via recurrence
+    return LemmaInst("L_cumsum_tel", prem, concl)
+
+
+def _cumsum_tel_proof():
+    b = z3.Function("b!T", _I, _R)
+    c = z3.Function("c!T", _I, _R)
+    F = z3.Function("F!T", _I, _R)
+    n, i, j = z3.Ints("n!T i!T j!T")
+    hyp = [z3.ForAll([j], z3.Implies(z3.And(0 <= j, j < n), b(j) == F(j + 1) - F(j)), patterns=[b(j)]),
+           z3.Implies(n >= 1, c(0) == b(0)),
+           z3.ForAll([j], z3.Implies(z3.And(0 <= j, j + 1 < n), c(j + 1) == c(j) + b(j + 1)), patterns=[c(j + 1)])]
+    return [(".base", hyp + [n >= 1], c(0) == F(1) - F(0)),
+            (".step", hyp + [0 <= i, i + 1 < n, c(i) == F(i + 1) - F(0)], c(i + 1) == F(i + 2) - F(0))]
+
+
+LEMMA_PROOFS["L_cumsum_tel"] = _cumsum_tel_proof
